@@ -621,6 +621,9 @@ func (te *taintEngine) transferCall(fn *ssa.Function, call *ssa.Call) {
 		}
 		for i, a := range cc.Args {
 			if i < len(callee.Params) {
+				if guardedEqualToConst(a, call.Block()) {
+					continue // passed on the branch where the value was just compared equal to a constant
+				}
 				te.setVal(callee.Params[i], te.get(a))
 			}
 		}
